@@ -647,6 +647,15 @@ func (h *hist) step() (kind string, touched []string, rejected bool) {
 				}
 			}
 		}
+		if r.Chance(1, 4) {
+			// a name repeated in the list (two to four times), possibly of a method the pattern does not have: removing is idempotent
+			rep := ref.Pick(r, append(append([]string{}, ms...), "TRACE", "CONNECT", "GET"))
+			for k := r.Range(1, 3); k > 0; k-- {
+				ms = append(ms, rep)
+			}
+			ref.Shuffle(r, ms)
+			h.c.Class("remove_with_repeated_method_name")
+		}
 		via := randomVia(r, p)
 		wasLive := s.Live[p] != nil
 		t := s.Remove(p, via, ms...)
